@@ -2,7 +2,7 @@ SPECIFICATION Spec
 CONSTANTS
   Ids = {"a", "system 1", "system 2"}
   Cats = {"length", "time"}
-  Units = {"m", "cm", "s", "min"}
+  Units = {"m", "cm", "km", "s", "min"}
   MaxCalls <- MaxCallsDef
   Ops <- OpsDef
   TypeOf <- TypeDef
